@@ -353,6 +353,27 @@ fn fillers_for(used: u32, pad_free: Option<u16>, unit: u32) -> u32 {
     }
 }
 
+/// (filler entries, clusters) of a directory with `used` slots. `extra` adds that many clusters
+/// after the contents; with bit 7 set (and a `pad_free`) the extra clusters (low two bits) are
+/// filled with filler entries as well, so that the directory spans several clusters *and* has
+/// exactly `pad_free` unused slots, all of them in its last cluster.
+fn dir_geometry(used: u32, pad_free: Option<u16>, extra: u8, epc: u32) -> (u32, u32) {
+    if extra & 0x80 != 0 {
+        let k = (extra & 3) as u32;
+        if let Some(p) = pad_free {
+            if epc * (k + 1) <= 256 {
+                let p = p as u32 % epc.max(1);
+                let target = (div_up((used + p).max(1), epc) + k) * epc;
+                return (target - used - p, target / epc);
+            }
+        }
+        let nfill = fillers_for(used, pad_free, epc);
+        return (nfill, div_up((used + nfill).max(1), epc) + k);
+    }
+    let nfill = fillers_for(used, pad_free, epc);
+    (nfill, div_up((used + nfill).max(1), epc) + extra as u32)
+}
+
 struct Ctx<'a> {
     lay: &'a Layout,
     alloc: Alloc,
@@ -468,8 +489,7 @@ impl<'a> Ctx<'a> {
                     }
                     let epc = self.lay.cluster_bytes() / 32;
                     let used = count_slots(kids) + 2;
-                    let nfill = fillers_for(used, *pad_free, epc);
-                    let ncl = div_up(used + nfill + 0, epc).max(1) + *extra as u32;
+                    let (nfill, ncl) = dir_geometry(used, *pad_free, *extra, epc);
                     let chain = self.alloc.chain(ncl);
                     if chain.is_empty() {
                         // no space at all: drop this directory
@@ -903,8 +923,7 @@ pub fn mkfs(spec: &DiskSpec) -> (Image, Vec<PVol>) {
         let (root_children, root_bytes, root_chain, locs);
         if lay.fat32 {
             let epc = lay.cluster_bytes() / 32;
-            let nfill = fillers_for(used, v.root_pad_free, epc);
-            let ncl = div_up((used + nfill).max(1), epc) + v.root_extra as u32;
+            let (nfill, ncl) = dir_geometry(used, v.root_pad_free, v.root_extra, epc);
             let chain_early = if !g.root_late { ctx.alloc.chain(ncl) } else { vec![] };
             let (kids, bytes, l) = if g.root_late {
                 // children first, then the root chain; the root's own cluster is
